@@ -65,6 +65,18 @@ let register () =
         (if r then "ok" else "error") ^ " " ^ string_of_n n
     | _ -> "ERR args");
 
+  (* c14.putlog <budget> <payloadhex> <script> -> ok|error <attempts> <body,body,...> <server object hex | NONE>
+     StoreIndex / StoreChunk: the body of every request sent and what a body-keeping server holds *)
+  Drv.register "c14.putlog" (fun a -> match a with
+    | [budget; payload; script] ->
+        let rs = script_of script in
+        let ((ok, n), bodies) = store_payload_log (n_of_string budget) (bytes_of_hex payload) rs in
+        let obj = stored_after rs Datatypes.O bodies None in
+        Printf.sprintf "%s %s %s %s" (if ok then "ok" else "error") (string_of_n n)
+          (Stdlib.String.concat "," (Stdlib.List.map hex_of_bytes bodies))
+          (match obj with Some b -> hex_of_bytes b | None -> "NONE")
+    | _ -> "ERR args");
+
   (* ---- client + chunk server + local store ----
      c14.remote <op get|has|put> <budget> <cli_uncompressed> <cli_skip> <auth> <writable> <skipverifywrite> <srv_compressed>
                 <store_uncompressed> <store_skip> <idhex> <datahex (put)> <files> <zdecomp tab> <zcomp tab>
